@@ -72,7 +72,9 @@ def gen_case(seed, i):
     if rng.random() < 0.2:
         dargs += ["--no-lock"]
     return {"i": i, "cfg": cfg, "world": world.to_json(), "roots": roots, "gflags": gflags, "fmt": rng.choice(["default", "json"]),
-            "op": rng.choice(ops.OPS), "dargs": dargs, "n": n, "rf": rf, "seam_seed": rng.randint(1, 10**9)}
+            # reports with symbolic links as members: the link operations are where a link as the retained
+            # member matters, so they get half of those cases
+            "op": rng.choice(["link", "softlink"]) if (sym and rng.random() < 0.5) else rng.choice(ops.OPS), "dargs": dargs, "n": n, "rf": rf, "seam_seed": rng.randint(1, 10**9)}
 
 
 def gen_cases(tier, seed):
